@@ -62,19 +62,28 @@ if __name__ == "__main__":
         if rng.random() < 0.4 and not any("else" in l for l in lines):
             lines.append(f"    else -> {{ {hooks[ncl]}(); {rng.choice(['', chr(34) + 'e' + chr(34) + ';'])} }}")
         case = ("greedy case {\n" if greedy else "case {\n") + "\n".join(lines) + "\n  }"
-        shape = rng.randrange(3)
+        shape = rng.randrange(4)
         if shape == 0:
             body = case + '\n  ";";'
         elif shape == 1:
             body = '"<";\n  ' + case + "\n  hz();"
-        else:
+        elif shape == 2:
             body = "loop {\n  " + case + '\n  case { "!" -> { break; } " " -> { } }\n  }'
+        else:
+            # the no-match error of a case without else: the handler starts at the offending byte
+            body = "try {\n  " + case + '\n  } catch (nomatch) {\n    /[a-z0-9]/; "!"; hz();\n  }\n  ";";'
         src = "".join(f"hook {h};\n" for h in hooks) + "hook hz;\nparser {\n  " + body + "\n}\n"
         args = ["-feof-support"]
         if "yield " in src:
             src = "yieldcode " + ", ".join(f"Y{j}" for j in range(ncl)) + ";\n" + src
             args = ["-feof-support", "-fyield-support"]
         progs.append({"name": f"case-{i}", "src": src, "args": args, "feats": {}, "also_O3": i % 3 == 0})
+    for i, (kw, body1, body2) in enumerate([("if", "kind = 1;", 'kind = 2; "!";'), ("if", "yield Y0;", "yield Y1;"),
+                                            ("do", "h0();", 'h1(); "!";'), ("a1", "kind = 1;", "kind = 2;")]):
+        ys = "yield" in body1
+        src = ("yieldcode Y0, Y1;\n" if ys else "") + "out int kind = 0;\nhook h0;\nhook h1;\nparser {\n  greedy case {\n" + \
+            f'    prio 2 "{kw}" -> {{ {body1} }}\n    prio 1 /[a-z][a-z0-9]*/ -> {{ {body2} }}\n    prio 3 "zz9" -> {{ }}\n  }}\n  " ";\n}}\n'
+        progs.append({"name": f"kw-{i}", "src": src, "args": ["-feof-support"] + (["-fyield-support"] if ys else []), "feats": {}, "also_O3": True})
     progs.append({"name": "known-greedy-prefix-hook", "args": ["-feof-support"], "feats": {}, "also_O3": False,
                   "known_key": "greedy-prefix-clause-hook-runs-early",
                   "known_what": "in a greedy case a clause body of nothing but hook calls runs as soon as its pattern is complete, although a longer pattern of another clause goes on to match (both clauses' hooks run on 'abc')",
